@@ -165,7 +165,14 @@ func runHistory(dir string, seed uint64, spec PropSpec, shipped string) (*Case, 
 	var vs []*Violation
 	st := &OracleState{}
 	idx := 0
+	cliInProc := spec.Profile.Cli && r.Chance(1, 3) // this history's commands run through pkg/siftool inside the process
+	if cliInProc {
+		g.count("cli:history-run-in-process-through-pkg-siftool")
+	}
 	emit := func(op *Op) []string {
+		if op.Kind == "cli" && op.Cli != nil && cliInProc {
+			op.Cli.InProc = true
+		}
 		before := map[uint32]bool{}
 		if e.f != nil && (op.Kind == "add") {
 			for _, id := range inspect(e.f).ids {
